@@ -257,6 +257,17 @@ class Harness:
     def is_member(self, v, cls, name):
         return self.it.enum_eq(v, self.member(cls, name))
 
+    def contains(self, container, item):
+        return self.it.contains(container, item)
+
+    def time(self, hour, minute):
+        from .stdlib import TimeVal
+        return TimeVal(hour, minute)
+
+    def timedelta_minutes(self, minutes):
+        from .stdlib import TimeDelta
+        return TimeDelta(minutes * 60000000)
+
     def utf8(self, s):
         """UTF-8 bytes of a str as a list of byte values."""
         if isinstance(s, str):
@@ -493,6 +504,17 @@ class NativeHarness:
 
     def is_member(self, v, cls, name):
         return v is self.member(cls, name)
+
+    def contains(self, container, item):
+        return item in container
+
+    def time(self, hour, minute):
+        import datetime
+        return datetime.time(hour, minute)
+
+    def timedelta_minutes(self, minutes):
+        import datetime
+        return datetime.timedelta(minutes=minutes)
 
     def utf8(self, s):
         return list(s.encode("utf-8"))
